@@ -55,18 +55,19 @@ def startsWith : Str → Str → Bool
 
 /-- `\r\n|\n|\r`: length of the line end at the head of the input, if any -/
 def newlineLen : Str → Option Nat
-  | '\r' :: '\n' :: _ => some 2
-  | '\n' :: _ => some 1
-  | '\r' :: _ => some 1
-  | _ => none
+  | [] => none
+  | c :: rest =>
+    if c = '\r' then (if rest.head? = some '\n' then some 2 else some 1)
+    else if c = '\n' then some 1
+    else none
 
 /-- number of line ends in a string, CRLF counted once (`re.findall(r'\r\n|\n|\r', s)`) -/
 def countNewlines : Str → Nat
   | [] => 0
-  | '\r' :: '\n' :: rest => 1 + countNewlines rest
-  | '\n' :: rest => 1 + countNewlines rest
-  | '\r' :: rest => 1 + countNewlines rest
-  | _ :: rest => countNewlines rest
+  | c :: rest =>
+    if c = '\n' then 1 + countNewlines rest
+    else if c = '\r' then (if rest.head? = some '\n' then countNewlines rest else 1 + countNewlines rest)
+    else countNewlines rest
 
 /-! ### the individual rules: each returns the length of its (greedy) match at the head of the input -/
 
@@ -194,7 +195,7 @@ def step (cfg : Cfg) (st : LexState) (line : Nat) (s : Str) : Step :=
     | none =>
     if startsWith s "END".toList then .tok ⟨"END", .str "END".toList, line⟩ 3 .initial 0
     else match macroBodyLen s with
-    | some n => .skip n .macro 0       -- line ends inside the body are *not* counted
+    | some n => .skip n .macro (countNewlines (s.take n))
     | none => .err (if cfg.macroErrorRule then .lexer else .plyLexError)
   | .exports =>
     match newlineLen s with
@@ -202,14 +203,14 @@ def step (cfg : Cfg) (st : LexState) (line : Nat) (s : Str) : Step :=
     | none =>
     match s with
     | ';' :: _ => .skip 1 .initial 0
-    | _ => .skip (spanLen (· != ';') s) .exports 0
+    | _ => .skip (spanLen (· != ';') s) .exports (countNewlines (s.take (spanLen (· != ';') s)))
   | .choice =>
     match newlineLen s with
     | some n => .skip n .choice 1
     | none =>
     match s with
     | '}' :: _ => .skip 1 .initial 0
-    | _ => .skip (spanLen (· != '}') s) .choice 0
+    | _ => .skip (spanLen (· != '}') s) .choice (countNewlines (s.take (spanLen (· != '}') s)))
   | .comment =>
     match newlineLen s with
     | some n => .skip n .initial 1
@@ -223,14 +224,12 @@ inductive LexErr
 /-- the lexer loop; `fuel` = input length + 1 always suffices (every step consumes at least one character) -/
 def lexLoop (cfg : Cfg) : Nat → LexState → Nat → Str → List Tok → Except LexErr (List Tok × LexState × Nat)
   | 0, _, _, _, _ => .error .outOfFuel
-  | fuel + 1, st, line, s, acc =>
-    match s with
-    | [] => .ok (acc.reverse, st, line)
-    | _ =>
-      match step cfg st line s with
-      | .err k => .error (.err k line)
-      | .tok t n next lines => lexLoop cfg fuel next (line + lines) (s.drop (max n 1)) (t :: acc)
-      | .skip n next lines => lexLoop cfg fuel next (line + lines) (s.drop (max n 1)) acc
+  | _ + 1, st, line, [], acc => .ok (acc.reverse, st, line)
+  | fuel + 1, st, line, c :: cs, acc =>
+    match step cfg st line (c :: cs) with
+    | .err k => .error (.err k line)
+    | .tok t n next lines => lexLoop cfg fuel next (line + lines) ((c :: cs).drop (max n 1)) (t :: acc)
+    | .skip n next lines => lexLoop cfg fuel next (line + lines) ((c :: cs).drop (max n 1)) acc
 
 /-- all tokens of a text, from a fresh lexer (state INITIAL, line 1) -/
 def lexAll (cfg : Cfg) (s : Str) : Except LexErr (List Tok) :=
